@@ -278,3 +278,42 @@ func ResolveLocal(v ssa.Value) ssa.Value {
 	}
 	return v
 }
+
+// PathToAvoiding reports whether control can flow from the function entry to
+// the instruction target without executing a barrier instruction and without
+// crossing a CFG edge for which cut(a, i) is true (i the successor index of a).
+// Used for rules of the form "every path to X first establishes G", where G can
+// be established by any of several branch outcomes (short-circuit conditions
+// have no single dominating edge).
+func PathToAvoiding(fn *ssa.Function, target ssa.Instruction, barrier func(ssa.Instruction) bool, cut func(a *ssa.BasicBlock, succ int) bool) bool {
+	seen := map[*ssa.BasicBlock]bool{}
+	queue := []*ssa.BasicBlock{fn.Blocks[0]}
+	for len(queue) > 0 {
+		b := queue[0]
+		queue = queue[1:]
+		if seen[b] {
+			continue
+		}
+		seen[b] = true
+		stop := false
+		for _, in := range b.Instrs {
+			if in == target {
+				return true
+			}
+			if barrier != nil && barrier(in) {
+				stop = true
+				break
+			}
+		}
+		if stop {
+			continue
+		}
+		for i, s := range b.Succs {
+			if cut != nil && cut(b, i) {
+				continue
+			}
+			queue = append(queue, s)
+		}
+	}
+	return false
+}
